@@ -196,7 +196,6 @@ func ruleStateTable(field string, names map[int64]string, table []stateWrite) fu
 	}
 }
 
-
 // ownedByOutside is ownedBy for a member of a recursive cluster: callers
 // inside the cluster are ignored, every caller outside must be attributable.
 func (p *Prog) ownedByOutside(fn *ssa.Function, cluster []*ssa.Function, allowed func(string) bool) (string, bool) {
